@@ -48,9 +48,12 @@ def _build_and_run_programs(ctx, nprog, ncases, seedbase):
         return rc, out
     with ThreadPoolExecutor(max_workers=16) as ex:
         res = list(ex.map(comp, progs))
-    for (rc, out), pr in zip(res, progs):
-        if rc != 0:
-            raise BuildError('generated program %s does not compile:\n%s' % (pr['src'], out[-3000:]))
+    bad = [(pr, out) for (rc, out), pr in zip(res, progs) if rc != 0]
+    for pr, out in bad:
+        pr['compile_error'] = out[-3000:]
+    if len(bad) == len(progs):
+        raise BuildError('generated program %s does not compile:\n%s' % (bad[0][0]['src'], bad[0][1][-3000:]))
+    progs_ok = [pr for pr in progs if 'compile_error' not in pr]
 
     def run(pr):
         e = dict(os.environ)
@@ -58,9 +61,12 @@ def _build_and_run_programs(ctx, nprog, ncases, seedbase):
         p = subprocess.run([pr['exe']], stdout=subprocess.PIPE, stderr=subprocess.PIPE, env=e, timeout=600)
         return p.returncode, p.stdout.decode().split('\n'), p.stderr.decode()[-3000:]
     with ThreadPoolExecutor(max_workers=16) as ex:
-        outs = list(ex.map(run, progs))
-    for pr, (rc, lines, err) in zip(progs, outs):
+        outs = list(ex.map(run, progs_ok))
+    for pr, (rc, lines, err) in zip(progs_ok, outs):
         pr['rc'], pr['out'], pr['err'] = rc, [l for l in lines if l], err
+    for pr in progs:
+        if 'compile_error' in pr:
+            pr['rc'], pr['out'], pr['err'] = -1, [], 'does not compile'
     return progs, workdir
 
 
@@ -121,8 +127,16 @@ def compare_case(pr, ci, modelline, fields):
 def run_mser_check(ctx, module, theorems, fields, monitor, rule):
     ok, progs, lines, index, model = mser_common(ctx, module, theorems)
     prop_fail, mism, nontrivial = set(), 0, set()
+    nbad = 0
+    for pr in progs:
+        if pr.get('compile_error') and nbad < 2:
+            nbad += 1
+            ctx.violation('build-generated-%d' % nbad, 'a generated program over the real templates (a valid use of the library on the unchanged tree) does not compile against the current tree',
+                          {'kind': 'build', 'log': pr['compile_error'], 'broken': 'correspondence stream mser (generated program build)'}, found_input=False)
     for li, (pi, ci) in enumerate(index):
         pr = progs[pi]
+        if pr.get('compile_error'):
+            continue
         c = pr['cases'][ci]
         mline = model[li] if li < len(model) else ''
         ikv, mkv, diffs = compare_case(pr, ci, mline, fields)
@@ -352,7 +366,7 @@ def e2e_stream(ctx):
                     mser_lines.append(a['line'])
         mser_lines = sorted(set(mser_lines))
         rc, mout, err = run_lines(driver_path(), mser_lines)
-        render = dict((l, bytes.fromhex(parse_kv(o).get('render', ''))) for l, o in zip(mser_lines, mout))
+        render = dict((l, bytes.fromhex(parse_kv(o).get('renderpp', ''))) for l, o in zip(mser_lines, mout))
         nfail, nmism, nev, nlines = 0, 0, 0, 0
         fam = {}
         for pr in progs:
